@@ -105,6 +105,38 @@ PROPS = {
                  "(theorem makes the result independent of the segmentation actually seen)"],
         assumptions=["messages are well framed (first delimiter in body++delimiter is the appended one)"],
     ),
+    "C09": dict(
+        thm=["Bgpfu.Thm.C09"],
+        # cfg= selects the model variant the implementation is compared with: `pinned` = /repo as it is;
+        # add `+get`, `+edit-startup`, `+delete-candidate`, `+cap-unescape` as the corresponding repairs land
+        # in /repo (`fixed` = all four)
+        ops=[("build", ["cfg=fixed"])],
+        level_text="Theorems over every capability set (any list of capabilities, arbitrary URL-scheme lists), every "
+                   "operation and every sequence of builder calls: whatever reaches the transport satisfies every entry "
+                   "the RFC 6241 section 8 table attaches to the request (sent_implies_permitted, for the repaired builders; "
+                   "_partial + three counter-examples for the code as it is); conversely a build whose operation and call "
+                   "arguments are permitted and whose mandatory parameters are present succeeds "
+                   "(permitted_implies_buildable); a failed build leaves the transport untouched. The builder model is tied "
+                   "to /repo by issuing every operation x call combination through real Sessions (one per capability set) "
+                   "and comparing Err(kind) / the parsed wire bytes with the model; the RFC table is evaluated on what was "
+                   "found on the wire.",
+        level_note="The RFC table (Model/Rfc6241.lean) is hand-written from RFC 6241 section 8 / the YANG if-feature statements and is "
+                   "trusted as the specification. URI validity and decomposition of capability / URL texts come from the "
+                   "real iri-string parse (annotated input); the exact-URI table and the ?scheme= query splitting are "
+                   "modelled. String-valued payloads (filter bodies, config) are irrelevant to capability checks and are "
+                   "fixed samples. Theorems quantify over all capability lists; the correspondence run samples them.",
+        rule="capability sets: all subsets of the 13 known capabilities of size <=2 and >=11, every subset of the 11 "
+             "optional ones of size <=2 with base 1.0 / both bases and each of 8 :url query variants, 200 random subsets "
+             "(with unknown / near-miss / duplicate / reordered capability URIs), invalid capability text; thorough: all "
+             "2^13 subsets. Per established session: every operation x every combination of its builder calls and enum "
+             "values (edit-config: full target x error-option x test-option product, content/URL x target, 40 random "
+             "shuffled full combinations; thorough: full 5-way product), 8 URL texts, repeated/overriding calls; a case "
+             "is distinct by (capability list, operation, call list)",
+        trusted=["RFC 6241 section 8 table as transcribed in Model/Rfc6241.lean",
+                 "iri-string's URI validation/decomposition (annotated input to the model)",
+                 "harness-side quick-xml parse of the wire bytes into the canonical request"],
+        assumptions=["a session exists (common base version); otherwise nothing can be sent at all"],
+    ),
     "C07": dict(
         thm=["Bgpfu.Thm.C07"],
         ops=[("frame", ["only-close"])],
